@@ -107,6 +107,8 @@ def cpp_error_class(err):
     msg = first.split("error:", 1)[1].strip() if "error:" in first else "?"
     if "incomplete type" in msg and ("NoContext" in err[:err.find(first) + 2000] or "context" in msg):
         return "context-member-of-incomplete-type-NoContext", msg
+    if "no type named" in msg and "Context" in msg and "Container<" in msg:
+        return "group-container-without-Context-typedef", msg
     if "is not a class template" in msg and "CGlueTraitObj" in msg:
         return "CGlueTraitObj-specialised-but-never-declared", msg
     msg = re.sub(r"\d+", "N", msg)
